@@ -4,6 +4,7 @@ import (
 	"fmt"
 	"math/big"
 	"strconv"
+	"strings"
 	"sync"
 	"sync/atomic"
 
@@ -22,10 +23,20 @@ func runSerial(s string) (string, string) {
 	return "v s=" + c.X(s), impl
 }
 
+// SSHRevokeRequest.Validate's serial canonicalisation (decimal only)
+func runSSHSerial(s string) (string, string) {
+	rr := &api.SSHRevokeRequest{Serial: s, Passive: true, ReasonCode: 0, OTT: "x"}
+	impl := "bad"
+	if err := rr.Validate(); err == nil {
+		impl = c.X(rr.Serial)
+	}
+	return "vs s=" + c.X(s), impl
+}
+
 func cornerSerials() []string {
 	return []string{"", "0", "00", "-0", "+0", "16", "016", "0x10", "0X1F", "0b101", "0B2", "0o17", "0O8", "09", "0_7", "0x_1f", "0x", "0b", "_1", "1_", "1__0", "1_000",
 		"-5", "+5", "--5", "+-5", " 5", "5 ", "abc", "0xg", "1e3", "1.5", "١٢", "340282366920938463463374607431768211455", "-340282366920938463463374607431768211455",
-		"0x0", "0b0", "0o0", "0_", "0_0", "00x1", "0xFFFFFFFFFFFFFFFFFFFFFFFFFFFFFFFF", "7", "07", "08", "0_8", "0x1_", "0x__1", "+", "-", "+0x10", "-0b11", "0z1"}
+		"18446744073709551615", "18446744073709551616", "018446744073709551615", "99999999999999999999", "0000", "0x0", "0b0", "0o0", "0_", "0_0", "00x1", "0xFFFFFFFFFFFFFFFFFFFFFFFFFFFFFFFF", "7", "07", "08", "0_8", "0x1_", "0x__1", "+", "-", "+0x10", "-0b11", "0z1"}
 }
 
 func genSerial(r *c.Rng) string {
@@ -55,6 +66,34 @@ func genSerial(r *c.Rng) string {
 			i := r.Intn(len(s))
 			s = s[:i] + s[i+1:]
 		}
+	}
+	return s
+}
+
+// genSSHSerial: decimal strings around the decision points of ParseUint(s, 10, 64): leading zeros,
+// the 2^64 boundary, signs, separators, other bases.
+func genSSHSerial(r *c.Rng) string {
+	n := new(big.Int).SetUint64(r.U64())
+	switch r.Intn(6) {
+	case 0:
+		n.SetUint64(uint64(r.Intn(100)))
+	case 1:
+		n.SetUint64(^uint64(0) - uint64(r.Intn(3)))
+	case 2:
+		n.Add(new(big.Int).SetUint64(^uint64(0)), big.NewInt(int64(1+r.Intn(3))))
+	case 3:
+		n.Mul(n, big.NewInt(int64(1+r.Intn(20))))
+	}
+	s := n.Text(10)
+	if r.Chance(1, 3) {
+		s = strings.Repeat("0", 1+r.Intn(4)) + s
+	}
+	switch r.Intn(8) {
+	case 0:
+		i := r.Intn(len(s) + 1)
+		s = s[:i] + string(c.Pick(r, []byte("_xX+- aA.9"))) + s[i:]
+	case 1:
+		s = spellSerial(n, 1+r.Intn(7))
 	}
 	return s
 }
@@ -174,12 +213,13 @@ func runRace(rc *Race) (string, string, string) {
 // ---------------------------------------------------------------- defects stage
 
 // Defect ssh-serial: POST /1.0/ssh/revoke with a proof-of-possession token of the certificate
-// and the body serial spelled Spelling+decimal; the request is acknowledged; then renew and
-// rekey the same certificate. ssh-serial-jwk: same through a JWK token. x509-serial: the
+// and the body serial spelled Spelling+decimal; if the request is acknowledged, renew and rekey of
+// the same certificate must be refused (D13, fixed by c1e180f: "0"+decimal is now canonicalised). ssh-serial-jwk: same through a JWK token. x509-serial: the
 // X.509 control (hex spelling, canonicalised by Validate).
 type Defect struct {
 	Kind     string
 	Spelling string
+	Refused  bool // the route must refuse this spelling with 400 (nothing acknowledged, nothing to block)
 }
 
 func runDefect(d *Defect) (string, string, string) {
@@ -207,6 +247,12 @@ func runDefect(d *Defect) (string, string, string) {
 		afterRestart = e.renew(xc)
 	default:
 		return "", "", ""
+	}
+	if d.Refused {
+		if ack == 400 {
+			return in, "ok", "ok"
+		}
+		return in, fmt.Sprintf("not-refused status=%d renew=%d", ack, renew), "ok"
 	}
 	if ack != 200 {
 		return in, fmt.Sprintf("revocation-not-acknowledged status=%d", ack), "ok"
